@@ -529,6 +529,7 @@ type e1Result struct {
 	matched  []int // per literal: number of Ifs it decided
 	nIfs     int
 	nTargets int // target constructs present in the function at all
+	nSites   int // for rows with an exception: constructs matching the pattern, exceptions included
 	facts    int
 }
 
@@ -841,6 +842,12 @@ func (e *e1Engine) eval(fn *ssa.Function, row *Row) e1Result {
 			if e.isTarget(ins, row.Target, row.Assume) {
 				res.nTargets++
 			}
+			// sites the rule speaks about at all (exceptions included)
+			base := row.Target
+			base.ReNot, base.ValNot = "", ""
+			if (row.Target.ReNot != "" || row.Target.ValNot != "") && e.isTarget(ins, base, row.Assume) {
+				res.nSites++
+			}
 		}
 	}
 	// pass 2: first reachable target (when row.From is set: only targets that
@@ -1025,8 +1032,14 @@ func (e *e1Engine) Check(row Row) Obligation {
 			o.Detail = "required construct is absent: " + row.Target.String()
 			return o
 		}
+		if (row.Target.ReNot != "" || row.Target.ValNot != "") && (row.Target.Kind == TCall || row.Target.Kind == TStore) && r.nSites == 0 {
+			// "every X is of the form Y" with no X left: the anchor is gone
+			o.set(Unresolved)
+			o.Detail = "no construct matches " + row.Target.String() + " in " + row.Fn + " any more: the rule's anchor does not resolve"
+			return o
+		}
 		o.set(OK)
-		if len(missing) > 0 || (r.nTargets == 0 && row.Target.Kind != TSuccess) {
+		if len(missing) > 0 || (r.nTargets == 0 && r.nSites == 0 && row.Target.Kind != TSuccess) {
 			o.Vacuous = true
 			o.Detail = fmt.Sprintf("vacuous: unmatched atoms %v, targets present %d", missing, r.nTargets)
 		}
